@@ -122,16 +122,20 @@ func TestIssuer(t *testing.T) {
 			t.Fatalf("harness: %v", err)
 		}
 		iss := sess.Issuer3
+		// the harness keeps its own record of what was registered (asking the issuer would make the oracle depend on the code under test)
+		registered := map[string]bool{sess.Origin: true}
 		extra := rapid.IntRange(0, 2).Draw(t, "extraOrigins")
 		for i := 0; i < extra; i++ {
 			o := gen.OriginName().Draw(t, "extraOrigin")
 			if o != sess.Origin {
 				_ = iss.AddOrigin(o)
+				registered[o] = true
 			}
 		}
 		emptyRegistered := sess.Origin == "" || rapid.Bool().Draw(t, "registerEmpty")
 		if emptyRegistered {
 			_ = iss.AddOrigin("")
+			registered[""] = true
 		}
 		honest := sess.RequestBytes
 		// health
@@ -163,6 +167,34 @@ func TestIssuer(t *testing.T) {
 			t.Fatalf("harness: %v", err)
 		}
 		mustReject(t, s, iss, stB.Request().Marshal(), "encrypted-to-other-issuer")
+		// a third issuer (same token key) that never registered this origin: a request made for IT must be refused by it,
+		// whatever other issuers in the process have registered
+		issC := type3.NewRateLimitedIssuer(sess.RKey)
+		_ = issC.AddOrigin("only-at-c.example")
+		if sess.Origin != "only-at-c.example" {
+			stC, err := type3.NewRateLimitedClientFromSecret(sess.ClientSecret).CreateTokenRequest(sess.Challenge, sess.Nonces[0], sess.BlindKey, sess.KeyID, issC.TokenKey(), sess.Origin, issC.NameKey())
+			if err != nil {
+				t.Fatalf("harness: %v", err)
+			}
+			mustReject(t, s, issC, stC.Request().Marshal(), "origin-registered-only-at-another-issuer")
+		}
+		// a long registered name and an unregistered one sharing its first 32 / 64 bytes
+		long := sess.Origin + strings.Repeat("l", 70)
+		if !registered[long] {
+			_ = iss.AddOrigin(long)
+			registered[long] = true
+		}
+		for _, cut := range []int{32, 64, len(long) - 1} {
+			o := long[:cut] + "-other-tail"
+			if registered[o] {
+				continue
+			}
+			st, err := type3.NewRateLimitedClientFromSecret(sess.ClientSecret).CreateTokenRequest(sess.Challenge, sess.Nonces[0], sess.BlindKey, sess.KeyID, iss.TokenKey(), o, iss.NameKey())
+			if err != nil {
+				t.Fatalf("harness: %v", err)
+			}
+			mustReject(t, s, iss, st.Request().Marshal(), "unregistered-origin-sharing-a-long-prefix")
+		}
 
 		// unregistered origins: honest client, names that are not registered
 		for i := 0; i < 3; i++ {
@@ -185,7 +217,7 @@ func TestIssuer(t *testing.T) {
 			case 5:
 				o = "y" + sess.Origin
 			}
-			if iss.OriginIndexKey(o) != nil || (len(o) > 0 && o[len(o)-1] == 0) {
+			if registered[o] || (len(o) > 0 && o[len(o)-1] == 0) {
 				continue
 			}
 			st, err := type3.NewRateLimitedClientFromSecret(sess.ClientSecret).CreateTokenRequest(sess.Challenge, sess.Nonces[0], sess.BlindKey, sess.KeyID, iss.TokenKey(), o, iss.NameKey())
@@ -240,7 +272,7 @@ func TestIssuer(t *testing.T) {
 		}
 		c = base
 		c.inner = ref.EncodeInnerRequest(sess.KeyID[0], blindedMsg, pad(sess.Origin+".unregistered"))
-		if iss.OriginIndexKey(sess.Origin+".unregistered") == nil {
+		if !registered[sess.Origin+".unregistered"] {
 			mustReject(t, s, iss, c.build(), "crafted-unregistered-origin")
 		}
 		c = base
@@ -270,7 +302,7 @@ func TestIssuer(t *testing.T) {
 		c.requestKey, c.aadKey = bad, bad
 		mustReject(t, s, iss, c.build(), "crafted-undecodable-request-key")
 		// plaintexts the honest client never sends (they sit behind the AEAD, byte mutation cannot reach them)
-		if iss.OriginIndexKey("") == nil { // (a drawn extra origin may be the empty name)
+		if !registered[""] { // (a drawn extra origin may be the empty name)
 			for _, n := range []int{0, 1, 32, 64, 33} {
 				c = base
 				c.inner = ref.EncodeInnerRequest(sess.KeyID[0], blindedMsg, make([]byte, n)) // all-zero padding = the empty origin name
@@ -281,7 +313,7 @@ func TestIssuer(t *testing.T) {
 			c = base
 			po := make([]byte, padTo)
 			copy(po, sess.Origin+"x") // an unregistered look-alike in a padding the client would not produce
-			if iss.OriginIndexKey(sess.Origin+"x") == nil {
+			if !registered[sess.Origin+"x"] {
 				c.inner = ref.EncodeInnerRequest(sess.KeyID[0], blindedMsg, po)
 				mustReject(t, s, iss, c.build(), "crafted-unregistered-origin-odd-padding")
 			}
